@@ -1,6 +1,7 @@
 package main
 
 import (
+	"go/constant"
 	"sort"
 	"fmt"
 	"go/types"
@@ -1081,6 +1082,23 @@ func init() {
 	}
 	stubs["k8s.io/apimachinery/pkg/api/resource.MustParse"] = func(cx *callCtx) []Term {
 		vc := cx.fr.eng.vc
+		// a plain decimal integer literal ("1", "100"): that many units = n * 10^9 nano-units
+		lit, isLit := "", false
+		if len(cx.argVs) > 0 {
+			if c, ok := cx.argVs[0].(*ssa.Const); ok && c.Value != nil && c.Value.Kind() == constant.String {
+				lit, isLit = constant.StringVal(c.Value), true
+			}
+		}
+		if !isLit {
+			for sLit, sym := range vc.strLits {
+				if sym == cx.args[0] {
+					lit, isLit = sLit, true
+				}
+			}
+		}
+		if isLit && lit != "" && len(lit) <= 9 && strings.Trim(lit, "0123456789") == "" {
+			return []Term{lit + "000000000"}
+		}
 		vc.decl("fn:qty_parse", "(declare-fun qty_parse (Str) Int)")
 		return []Term{fmt.Sprintf("(qty_parse %s)", cx.args[0])}
 	}
